@@ -65,7 +65,7 @@ func (cw *c01World) resetIfChanged() {
 	}
 }
 
-var c01Segments = []string{"", ".", "..", "sub", "root-other", "root", "out", "***DVD***", "***PS3***", "PS3ISO", "g.iso", "secret.txt", "CLOSEFILE"}
+var c01Segments = []string{"", ".", "..", "sub", "root-other", "root", "out", "***DVD***", "***PS3***", "PS3ISO", "g.iso", "secret.txt", "CLOSEFILE", "%2e%2e"}
 
 func c01Paths(maxSeg int) []string {
 	var out []string
@@ -87,6 +87,7 @@ func c01Paths(maxSeg int) []string {
 		"/a.txt\x00/../../secret.txt", "/../secret.txt\x00", strings.Repeat("../", 300)+"secret.txt", "/"+strings.Repeat("../", 300)+"srv/secret.txt",
 		"/"+strings.Repeat("x", 65534), strings.Repeat("../", 21844)+"x", "/sub/../../root-other/secret.txt", "//..//secret.txt", "/..\\secret.txt", "\\..\\secret.txt",
 		"/sub/../../../out/secret.txt", "/***DVD***/../../root-other", "/***PS3***/../..", "/***DVD***/..", "/PS3ISO/../../PS3ISO/g.iso", "/../PS3ISO/g.iso", "../PS3ISO/g.iso",
+		"/***DVD***/..%2froot-other", "/***DVD***/%2e%2e%2froot-other", "/***PS3***/sub/%2e%2e/%2e%2e/root-other", "/%2e%2e/root-other/secret.txt", "/..%2f..%2fsecret.txt", "/***DVD***/..%5croot-other", "/***DVD***/%2E%2E/root-other/",
 		"/w/../../w/x", "/./../root-other/./secret.txt", "/root-other/../../root-other/secret.txt", "/..", "..", "/../", "/../root", "/../root/a.txt", "/../rootx/secret.txt")
 	return out
 }
